@@ -79,6 +79,19 @@ func GenC18(seed uint64) *Plan {
 		}
 		p.Decls = append(p.Decls, d)
 	}
+	if g.chance(30) {
+		// a second source: every integration also runs there, so one
+		// integration has two tasks that insert at the same time
+		s2 := *sp
+		s2.Name = "s1"
+		if g.chance(50) {
+			s2.ChainID = uint64(g.between(1, 9999))
+		}
+		p.Sources = append(p.Sources, s2)
+		for _, d := range p.Decls {
+			d.Sources = append(d.Sources, model.SrcRef{Name: "s1", Start: d.Sources[0].Start})
+		}
+	}
 	g.ensureEvents(p)
 	f := &p.Faults
 	f.HealAt = g.between(200, 1500)
